@@ -963,6 +963,41 @@ pub fn c15(ctx: &mut Ctx, tier: &str, seed: u64) {
                 }
             }
         }
+        // the typed component iterators compare like the wrapped ones, and never across variants
+        {
+            ctx.evals += 1;
+            let others: [&[u8]; 4] = [s.as_slice(), b"a", b"/a/b", br"C:\a"];
+            let mut ok = true;
+            for o in others {
+                let (u1, u2) = (UnixPath::new(s).components(), UnixPath::new(o).components());
+                let (w1, w2) = (WindowsPath::new(s).components(), WindowsPath::new(o).components());
+                let (tu1, tu2) = (TypedPath::unix(s), TypedPath::unix(o));
+                let (tw1, tw2) = (TypedPath::windows(s), TypedPath::windows(o));
+                ok = ok && (tu1.components() == tu2.components()) == (u1 == u2)
+                    && (tw1.components() == tw2.components()) == (w1 == w2)
+                    && PartialOrd::partial_cmp(&tu1.components(), &tu2.components()) == PartialOrd::partial_cmp(&u1, &u2)
+                    && PartialOrd::partial_cmp(&tw1.components(), &tw2.components()) == PartialOrd::partial_cmp(&w1, &w2)
+                    && tu1.components() != tw2.components() && tw1.components() != tu2.components()
+                    && PartialOrd::partial_cmp(&tu1.components(), &tw2.components()).is_none()
+                    && PartialOrd::partial_cmp(&tw1.components(), &tu2.components()).is_none();
+                if let (Ok(st), Ok(so)) = (std::str::from_utf8(s), std::str::from_utf8(o)) {
+                    let (u1, u2) = (Utf8UnixPath::new(st).components(), Utf8UnixPath::new(so).components());
+                    let (w1, w2) = (Utf8WindowsPath::new(st).components(), Utf8WindowsPath::new(so).components());
+                    let (tu1, tu2) = (Utf8TypedPath::unix(st), Utf8TypedPath::unix(so));
+                    let (tw1, tw2) = (Utf8TypedPath::windows(st), Utf8TypedPath::windows(so));
+                    ok = ok && (tu1.components() == tu2.components()) == (u1 == u2)
+                        && (tw1.components() == tw2.components()) == (w1 == w2)
+                        && PartialOrd::partial_cmp(&tu1.components(), &tu2.components()) == PartialOrd::partial_cmp(&u1, &u2)
+                        && PartialOrd::partial_cmp(&tw1.components(), &tw2.components()) == PartialOrd::partial_cmp(&w1, &w2)
+                        && tu1.components() != tw2.components() && tw1.components() != tu2.components()
+                        && PartialOrd::partial_cmp(&tu1.components(), &tw2.components()).is_none()
+                        && PartialOrd::partial_cmp(&tw1.components(), &tu2.components()).is_none();
+                }
+            }
+            if !ok {
+                ctx.fail("typed-components-compare", None, format!("derive {}", hex(s)), String::new());
+            }
+        }
         // the `From` constructors of the typed types ARE `derive`; `try_as_ref` hands out the wrapped
         // path for the right variant only
         {
